@@ -501,12 +501,40 @@ func c03OperandErrors(c *Ctx, r *Result) {
 				// NewRuntimeError(util.ErrX, rt.errorDetailString(Children[k].Token, res), …) in the failure block
 				for _, x := range fail.Instrs {
 					ce, isCall := x.(*ssa.Call)
-					if !isCall || !strings.HasSuffix(callName(ce), "NewRuntimeError") {
+					if !isCall {
 						continue
+					}
+					// the error is built by NewRuntimeError here, or by a helper of the same type that
+					// builds it from its parameters (operandError(kind, operand, value, pos))
+					sub := func(v ssa.Value) ssa.Value { return v }
+					if !strings.HasSuffix(callName(ce), "NewRuntimeError") {
+						h := ce.Call.StaticCallee()
+						if h == nil || !c.inModule(h) || c.PkgOf(h) != "interpreter" || h == fn {
+							continue
+						}
+						var inner *ssa.Call
+						allInstrs(h, func(y ssa.Instruction) {
+							if ic, ok := y.(*ssa.Call); ok && strings.HasSuffix(callName(ic), "NewRuntimeError") {
+								inner = ic
+							}
+						})
+						if inner == nil {
+							continue
+						}
+						outer := ce
+						sub = func(v ssa.Value) ssa.Value {
+							for i, p := range h.Params {
+								if unspill(v) == ssa.Value(p) && i < len(outer.Call.Args) {
+									return outer.Call.Args[i]
+								}
+							}
+							return v
+						}
+						ce = inner
 					}
 					args := ce.Call.Args
 					et := ""
-					if u, isU := args[1].(*ssa.UnOp); isU {
+					if u, isU := sub(args[1]).(*ssa.UnOp); isU {
 						if g, isG := u.X.(*ssa.Global); isG {
 							et = g.Name()
 						}
@@ -523,8 +551,16 @@ func c03OperandErrors(c *Ctx, r *Result) {
 					}
 					dargs := det.Call.Args
 					tokPath := accessPath(dargs[1])
+					// <param>.Token inside the helper: the token of the node handed in
+					if ld, isLd := dargs[1].(*ssa.UnOp); isLd {
+						if fa, isFA := ld.X.(*ssa.FieldAddr); isFA {
+							if sv := sub(fa.X); sv != fa.X {
+								tokPath = accessPath(sv) + ".Token"
+							}
+						}
+					}
 					sameTok := strings.HasPrefix(tokPath, strings.TrimSuffix(operand, ".Runtime")+".Token")
-					sameVal := unspill(stripConv(dargs[2])) == ssa.Value(e)
+					sameVal := unspill(stripConv(sub(dargs[2]))) == ssa.Value(e)
 					if sameTok && sameVal {
 						good, why = true, "failure → NewRuntimeError("+et+", detail of the same operand)"
 					} else {
